@@ -35,6 +35,7 @@ def run(ctx):
     _r14(ctx)
     _r15(ctx)
     _r16(ctx)
+    _r17(ctx)
     # a panic in the task that serves a TCP upstream stalls every query on that connection: the oneshot replies it unwraps are
     # safe only while their receivers are awaited without a deadline (the rule is C05's side rule S4, evaluated here as well)
     from . import c05
@@ -74,6 +75,59 @@ def _r16(ctx):
               "a handler between listener and out-query layer uses a cross-task signal: %s" % (bad[:4] or "-"))
     if ctx.config in ("default", "dns"):
         ctx.floor("R16", "bodies of the ACL, router and cache handlers", n, 10)
+
+
+def _r17(ctx):
+    """what the forwarder asks the upstream for it can receive: the buffer a UDP reply is read into is at least as large as the EDNS
+    payload size the out-query advertises. A smaller buffer cuts complete replies (recv truncates silently, TC is not set, nothing
+    retries over TCP) and the client gets a server failure for an answer the upstream gave. And: a sent query refreshes the *send*
+    stamp of the upstream connection, a received reply the *receive* stamp — the two watchdogs (nothing sent for 120 s: close;
+    nothing received: tear down) each watch their own."""
+    P = ctx.P
+    adv = set()
+    for b in P.bodies.values():
+        if b.id.startswith("erbium::dns::outquery::") and "::test" not in b.id:
+            T = None
+            for _, bb, idx, st in find_aggs(P, "dns::dnspkt::DNSPkt", [b]):
+                T = T or terms(P, b)
+                f = dict(norm(T.rvalue(st["rv"], bb, idx))[3])
+                v = const_value(f.get("bufsize", ("unknown",)))
+                if v is not None:
+                    adv.add(v)
+    n = 0
+    for b in P.bodies.values():
+        if not (b.id.startswith("erbium::dns::outquery::OutQuery::send_single_udp") and b.kind == "coroutine" and b.id.count("{closure") == 1):
+            continue
+        T = terms(P, b)
+        for bb, tm in b.calls():
+            nme = callee_name(tm) or ""
+            if "UdpSocket" in nme and nme.rsplit("::", 1)[-1] in ("recv", "recv_from") and len(tm["args"]) >= 2:
+                n += 1
+                ctx.saw(b)
+                a = norm(T.call_args(bb)[1])
+                sizes = [y[2] for y in subterms(a) if y[0] == "repeat" and len(y) > 2 and isinstance(y[2], int)]
+                size = max(sizes) if sizes else None
+                ctx.check(bool(adv) and size is not None and size >= max(adv), "R17", "upstream-reply-buffer>=advertised-size", ctx.where(b, tm["sp"]),
+                          "the out-query advertises %s octets, the reply is read into a buffer of %s" % (sorted(adv), size))
+    if ctx.config in ("default", "dns"):
+        ctx.floor("R17", "receives of an upstream UDP reply", n, 1)
+    m = 0
+    for b in P.bodies.values():
+        root = b.id.split("::{")[0]
+        if not root.startswith("erbium::dns::outquery::TcpNameserver::") or "::test" in b.id:
+            continue
+        leaf = root.rsplit("::", 1)[-1]
+        writes = sorted({st["p"][-1] for _, _, st in b.stmts() if st.get("rv") and len(st["p"]) >= 2 and st["p"][-1] in (".tcp_last_send_activity", ".tcp_last_recv_activity")})
+        if not writes:
+            continue
+        m += 1
+        ctx.saw(b)
+        if leaf == "send_tcp_query":
+            ctx.check(writes == [".tcp_last_send_activity"], "R17", "a-sent-query-refreshes-the-send-stamp", ctx.where(b), "send_tcp_query writes %s" % writes)
+        elif "recv" in leaf or "reply" in leaf:
+            ctx.check(writes == [".tcp_last_recv_activity"], "R17", "a-received-reply-refreshes-the-receive-stamp:%s" % leaf, ctx.where(b), "%s writes %s" % (leaf, writes))
+    if ctx.config in ("default", "dns"):
+        ctx.floor("R17", "functions that refresh a watchdog stamp", m, 2)
 
 
 def _r15(ctx):
